@@ -356,8 +356,62 @@ def isolated(case):
 PREDICATES = {"target_has_isolated_vertex": isolated}
 
 
+NOISY = [
+    ([["1", "H", "e", 0], ["CNOT", "e", 0, "p", 0]], [None, [["dep", 0.25, False], ["dep", 0.5, True]]]),
+    ([["1", "H", "e", 0], ["CZ", "e", 0, "p", 0]], [["pauli", "X", True], [["loss", 0.25, True], ["pauli", "Z", False]]]),
+    ([["CNOT", "e", 0, "p", 0], ["1", "H", "p", 0]], [[["dep", 0.25, True], ["dep", 0.5, False]], ["dep", 0.25, False]]),
+    ([["W", ["H", "P"], "e", 0], ["CNOT", "e", 0, "p", 0]], [("list", [["pauli", "Z", False], ["dep", 0.5, True]]), [None, ["loss", 0.25, False]]]),
+    ([["1", "H", "e", 0], ["CNOT", "e", 0, "p", 0], ["CNOT", "e", 0, "p", 0]], [["dep", 0.25, True], [["dep", 0.25, False], None], [["pauli", "Y", True], ["dep", 0.5, False]]]),
+]
+NCALLS = ["compile_dm_noise", "compile_mix_noise", "compile_dm", "copy", "metrics", "export", "compare_direct"]
+
+
+def run_noisy_history(acc, idx, hist):
+    """a circuit that carries noise objects: calls must leave operations/noise untouched and every noisy compile must give the same channel."""
+    from . import c06
+    prog, noises = NOISY[idx]
+    layout = (1, 1, 0)
+    case = {"layout": list(layout), "program": prog, "noise": c06._jn(noises), "history": list(hist)}
+    acc.evaluations += 1
+    circ = c06.build_real(layout, [c06.make_noisy_op(l, nd) for l, nd in zip(prog, noises)])
+    want = c06.ref_run(layout, prog, noises, True)
+    want_off = c06.ref_run(layout, prog, noises, False)
+    surv = c06.survival(noises, prog, True)
+    for k, name in enumerate(hist):
+        acc.transitions += 1
+        fp = fingerprint(circ)
+        try:
+            if name in ("compile_dm_noise", "compile_mix_noise", "compile_dm"):
+                backend = "mix" if name == "compile_mix_noise" else "dm"
+                on = name != "compile_dm"
+                st = c06.compile_real(circ, backend, on, True)
+                sub = core.Acc(ID, findings=[], predicates={})
+                c06.check_state(sub, st, backend, 2, want if on else want_off, surv if on else 1.0, case, name)
+                if sub.viol:
+                    ex = list(sub.viol.values())[0]["examples"][0]
+                    acc.violation("repeat", name, "noisy-compile-differs-after-earlier-calls: " + ex["symptom"], dict(case, step=k), "reference channel", ex["observed"])
+                    return
+            elif name == "copy":
+                c2 = circ.copy()
+                if fingerprint(c2) != fp:
+                    acc.violation("rewrite", "copy", "copy-differs-from-original", dict(case, step=k), "same operations and noise", "differs")
+                    return
+                circ = c2
+            else:
+                do_call(name, circ, (1, 1, 0), {"viol": [], "init": None})
+        except Exception as e:
+            acc.violation("raises", name, "raises-" + type(e).__name__, dict(case, step=k), "call returns", repr(e)[:200])
+            return
+        if name != "copy" and fingerprint(circ) != fp:
+            acc.violation("mutation", name, "input-circuit-changed", dict(case, step=k), "unchanged operations / noise", _diff(fp, fingerprint(circ)))
+            return
+    acc.validated += 1
+    acc.nontriv(("noisy", idx, tuple(hist)))
+
+
 def shards(tier):
-    out = []
+    out0 = [{"kind": "noisy", "idx": i} for i in range(len(NOISY))]
+    out = out0
     deep = range(len(PROGRAMS)) if tier == "thorough" else [4, 6, 7, 8, 11, 12, 15, 16, 22, 24, 28, 29]
     for pi in range(len(PROGRAMS)):
         out.append({"kind": "hist", "prog": pi, "depth": 2, "first": None})
@@ -373,6 +427,11 @@ def shards(tier):
 
 
 def run_shard(shard, tier, acc):
+    if shard["kind"] == "noisy":
+        for L in (1, 2, 3):
+            for h in itertools.product(NCALLS, repeat=L):
+                run_noisy_history(acc, shard["idx"], h)
+        return
     if shard["kind"] == "hist":
         pi = shard["prog"]
         if shard["first"] is None:
